@@ -492,7 +492,8 @@ impl Property for C19 {
         let _ = std::fs::remove_file(&result);
         let examples = tier.pick(300, 6000);
         let exe = std::env::current_exe().unwrap();
-        let status = std::process::Command::new("python3-vt")
+        let mut pycmd = std::process::Command::new("python3-vt");
+        pycmd
             .arg(root.join("py").join("c19_check.py"))
             .arg("--lib").arg(root.join("work").join("pylib"))
             .arg("--worlds").arg(&base)
@@ -500,8 +501,13 @@ impl Property for C19 {
             .arg("--seed").arg(seed.to_string())
             .arg("--examples").arg(examples.to_string())
             .arg("--out").arg(&result)
-            .arg("--replays").arg(root.join("replays").join("C19"))
-            .status();
+            .arg("--replays").arg(root.join("replays").join("C19"));
+        // single-threaded histories cannot block each other; the cap only keeps a stuck interpreter from stalling the run
+        let status = match status_with_timeout(&mut pycmd, tier.pick(900, 7200)) {
+            Ok(Some(st)) => Ok(st),
+            Ok(None) => return vec![(json!({"python": "driver"}), Failure { clause: "python:driver-never-finishes".into(), detail: "the interpreter running the call histories did not finish within the time limit".into() })],
+            Err(e) => Err(e),
+        };
         let mut fails = Vec::new();
         let res: Option<Value> = std::fs::read_to_string(&result).ok().and_then(|t| serde_json::from_str(&t).ok());
         match (status, res) {
